@@ -358,9 +358,9 @@ theorem copyInv_attach {s : State} {sk D : FsPath} {dm fm : Option Nat} {σ : St
 /-! ### the abstract node of a freshly created directory -/
 
 theorem mkDirEntry_mode {K : FsPath} {m : Nat} (hm : m ≠ 0) :
-    (mkDirEntry K (some m)).mode = m ||| 0o40000 := by
-  unfold mkDirEntry optsMode
-  simp [hm]
+    (mkDirEntry K (some m)).mode = (m &&& 0o7777) ||| 0o40000 := by
+  unfold mkDirEntry
+  simp [ModeBits.optsMode_some, hm]
 
 theorem or_sub_dirbit {x : Nat} (h : x < 0o40000) : (x ||| 0o40000) - 0o40000 = x := by
   have h1 : (0o40000 : Nat) = 2 ^ 14 * 1 := by decide
@@ -370,18 +370,18 @@ theorem or_sub_dirbit {x : Nat} (h : x < 0o40000) : (x ||| 0o40000) - 0o40000 = 
 
 theorem typeBits_dir : typeBits Kind.dir = 0o40000 := rfl
 
-theorem getD_dirperm_eq {m : Nat} (o : Option Nat) (hmode : m ||| 0o40000 = m)
-    (hperm : ∀ x, o = some x → x < 0o40000) :
-    (o.getD m ||| 0o40000) - 0o40000 = o.getD (m - 0o40000) :=
-  getD_perm_eq' o hmode (fun x hx => or_sub_dirbit (hperm x hx))
+theorem getD_dirperm_eq {m : Nat} (o : Option Nat) (hmode : (m &&& 0o7777) ||| 0o40000 = m)
+    (hperm : ∀ x, o = some x → x < 0o10000) :
+    o.getD m &&& 0o7777 = o.getD (m - 0o40000) :=
+  getD_perm_eq' o (fun _ hx => or_sub_dirbit (Nat.lt_trans hx (by decide))) hmode hperm
 
 /-- the abstract node of the directory created for the source directory `e` -/
 theorem nodeAt_attach_dir {s σ : State} {sk K r : FsPath} {c : CopyOpts} {e pe : Entry} {fs : List Str}
     (hKne : K ≠ [])
     (hdir : e.dir = true) (hlink : e.link = false)
     (huid : e.uid = 1000) (hgid : e.gid = 1000)
-    (hmode : e.mode ||| 0o40000 = e.mode)
-    (hperm : ∀ x, copyDirMode c = some x → 0 < x ∧ x < 0o40000)
+    (hmode : (e.mode &&& 0o7777) ||| 0o40000 = e.mode)
+    (hperm : ∀ x, copyDirMode c = some x → 0 < x ∧ x < 0o10000)
     (hsrcdata : alLookup (sk ++ r) s.files = none)
     (hfreeF : alLookup K σ.files = none) :
     nodeAt (attach σ K (mkDirEntry K (some ((copyDirMode c).getD e.mode))) pe fs none) K =
@@ -392,8 +392,6 @@ theorem nodeAt_attach_dir {s σ : State} {sk K r : FsPath} {c : CopyOpts} {e pe 
       simp only [Option.getD_none]
       intro h0
       rw [h0] at hmode
-      have : (0 ||| 0o40000 : Nat) = 0o40000 := by simp
-      rw [this] at hmode
       exact absurd hmode (by decide)
     | some x =>
       simp only [Option.getD_some]
@@ -414,17 +412,19 @@ theorem nodeAt_attach_dir {s σ : State} {sk K r : FsPath} {c : CopyOpts} {e pe 
   have hu1 : (mkDirEntry K (some ((copyDirMode c).getD e.mode))).uid = 1000 := rfl
   have hg1 : (mkDirEntry K (some ((copyDirMode c).getD e.mode))).gid = 1000 := rfl
   unfold absNode copiedNode
-  rw [hnk, hk, hdata, hsrcdata, hl1, hlink, hu1, hg1, huid, hgid, mkDirEntry_mode hne0, typeBits_dir, hp]
+  rw [hnk, hk, hdata, hsrcdata, hl1, hlink, hu1, hg1, huid, hgid, mkDirEntry_mode hne0, typeBits_dir,
+    or_sub_dirbit (Nat.lt_trans (ModeBits.and_perm_lt _) (by decide)), hp]
   rfl
 
 /-! ### one step of the copy loop -/
 
-/-- a source entry the tree theorem covers: no link; a directory has no file flag, carries its type
-    bit and the default owner; a non-directory is a regular file carrying its type bit -/
+/-- a source entry the tree theorem covers: no link; a directory has no file flag, a canonical mode
+    (permission bits plus its type bit — what every `optsMode` result is) and the default owner; a
+    non-directory is a regular file with a canonical mode -/
 def SubOk (e : Entry) : Prop :=
   e.link = false ∧
-  (e.dir = true → e.file = false ∧ e.mode ||| 0o40000 = e.mode ∧ e.uid = 1000 ∧ e.gid = 1000) ∧
-  (e.dir = false → e.file = true ∧ e.mode ||| 0o100000 = e.mode)
+  (e.dir = true → e.file = false ∧ (e.mode &&& 0o7777) ||| 0o40000 = e.mode ∧ e.uid = 1000 ∧ e.gid = 1000) ∧
+  (e.dir = false → e.file = true ∧ (e.mode &&& 0o7777) ||| 0o100000 = e.mode)
 
 instance (e : Entry) : Decidable (SubOk e) := by unfold SubOk; infer_instance
 
@@ -440,8 +440,8 @@ structure TreeCtx (s : State) (sk dk : FsPath) (c : CopyOpts) : Prop where
   dpar : ∃ pe, alLookup (copyDst s sk dk).dropLast s.entries = some pe ∧ pe.dir = true ∧ pe.link = false
   notUnder : ¬ sk <+: copyDst s sk dk
   subok : ∀ r e, alLookup (sk ++ r) s.entries = some e → SubOk e
-  hpermD : ∀ x, copyDirMode c = some x → 0 < x ∧ x < 0o40000
-  hpermF : ∀ x, c.mode = some x → x < 0o100000
+  hpermD : ∀ x, copyDirMode c = some x → 0 < x ∧ x < 0o10000
+  hpermF : ∀ x, c.mode = some x → x < 0o10000
 
 theorem TreeCtx.hinc {s : State} {sk dk : FsPath} {c : CopyOpts} (h : TreeCtx s sk dk c)
     (r : FsPath) {e : Entry} (he : alLookup (sk ++ r) s.entries = some e) :
